@@ -1795,3 +1795,48 @@ package stun
 //@   assigns ghost(wg_adds)
 //@   allocates
 //@   ensures result == nil && ghost(wg_adds) == old(ghost(wg_adds)) + 1
+
+// ---- the package's own options, checked against the ClientOption contract (each touches exactly its field) ----
+//@ func WithHandler$1(c)
+//@   safety C15
+//@   props C15
+//@   constructs
+//@   requires c != nil
+//@   assigns c.handler
+//@ func WithRTO$1(c)
+//@   safety C15
+//@   props C15 C11
+//@   constructs
+//@   requires c != nil
+//@   assigns c.rto
+//@ func WithClock$1(c)
+//@   safety C15
+//@   props C15
+//@   constructs
+//@   requires c != nil
+//@   assigns c.clock
+//@ func WithTimeoutRate$1(c)
+//@   safety C15
+//@   props C15
+//@   constructs
+//@   requires c != nil
+//@   assigns c.rtoRate
+//@ func WithAgent$1(c)
+//@   safety C15
+//@   props C15
+//@   constructs
+//@   requires c != nil
+//@   assigns c.a
+//@ func WithCollector$1(c)
+//@   safety C15
+//@   props C15
+//@   constructs
+//@   requires c != nil
+//@   assigns c.collector
+//@ func WithNoConnClose$1(c)
+//@   safety C15
+//@   props C15
+//@   constructs
+//@   requires c != nil
+//@   assigns c.closeConn
+//@   ensures !c.closeConn
